@@ -16,6 +16,10 @@ type VBool struct{ T Term }
 type VBig struct{ T Term } // mathematical integer (content of a big.Int)
 type VStr struct{ S string }
 type VFloat struct{ T Term } // fp_precise mode only
+
+// VSymStr is a string converted from bytes that are not all concrete (usable as a map key,
+// comparable, measurable; anything else is unsupported).
+type VSymStr struct{ E []Value }
 type VPtr struct{ C *Cell } // C == nil => nil pointer
 type VElemPtr struct {      // pointer to arr[idx] with symbolic idx (scalar elements only)
 	Arr *Cell
